@@ -66,7 +66,7 @@ ParamNames == <<"p1", "p2", "p3">>
 AnnFaults == {"unbal", "dbl", "empty", "stray", "kv", "unknown"}
 FailingAnnFaults == {"unbal", "dbl", "empty", "stray"}     \* _parse_annotations returns success=False
 Falsy(d) == d = <<>> \/ d = <<E>>                    \* Python: `not description`
-Range(s) == {s[i] : i \in 1..Len(s)}
+RangeOf(s) == {s[i] : i \in 1..Len(s)}
 Track == MaxFaults > 0         \* line numbers are only followed when faults (hence diagnostics) are modelled
 
 Line0 == [k |-> "text", form |-> "", name |-> "", ind |-> 0, colon |-> FALSE, anns |-> <<>>,
@@ -308,7 +308,7 @@ Write(tr) ==
 (* ---------------- the generator: model + layout -> lines ---------------- *)
 G0 == [ph |-> "open", ck |-> "none", na |-> 0, nc |-> 0, ref |-> 0, txt |-> 0, fs |-> FALSE, np |-> 0, nt |-> 0,
        npara |-> 0, dn |-> 0, pend |-> 0, lead |-> 0, used |-> {}, ret |-> FALSE, nf |-> 0, ln |-> 0,
-       alone |-> TRUE, noid |-> FALSE, ign |-> {}]
+       alone |-> TRUE, noid |-> FALSE, ign |-> {}, open |-> "alone", close |-> "alone", faults |-> <<>>]
 M0 == [present |-> TRUE, name |-> "", anns |-> <<>>, params |-> <<>>, desc |-> <<>>, tags |-> <<>>]
 
 MayPlant(gg, kind) == kind \in FaultKinds /\ gg.nf < MaxFaults
@@ -320,7 +320,7 @@ AFs(gg, k) == {"none"} \cup (IF k > 0 /\ gg.nf < MaxFaults THEN FaultKinds \cap 
 GAf(gg, af) == IF af = "none" THEN gg ELSE Planted(gg)
 Pres(gg) == {FALSE} \cup (IF MayPlant(gg, "pre") THEN {TRUE} ELSE {})
 GPre(gg, p) == IF p THEN Planted(gg) ELSE gg
-Ign(gg, af, ids, part) == IF af \in FailingAnnFaults THEN [gg EXCEPT !.ign = @ \cup {<<part, x>> : x \in Range(ids)}] ELSE gg
+Ign(gg, af, ids, part) == IF af \in FailingAnnFaults THEN [gg EXCEPT !.ign = @ \cup {<<part, x>> : x \in RangeOf(ids)}] ELSE gg
 
 \* model update helpers: the current part is the last parameter or the last tag
 CurM(m, ck) == IF ck = "param" THEN m.params[Len(m.params)] ELSE m.tags[Len(m.tags)]
@@ -328,7 +328,12 @@ SetCurM(m, ck, p) == IF ck = "param" THEN [m EXCEPT !.params[Len(m.params)] = p]
                      ELSE [m EXCEPT !.tags[Len(m.tags)] = p]
 Es(k) == [i \in 1..k |-> E]
 
-Step(l, gg, m, fl) == [line |-> l, g |-> [gg EXCEPT !.ln = IF Track THEN @ + 1 ELSE @], m |-> m, fl |-> fl]
+\* fk: kind of the fault planted with this line ("" = none); annotation-field and pre-asterisk faults are read off the line
+FK(l, fk) == IF fk # "" THEN fk ELSE IF l.af # "none" THEN l.af ELSE IF l.pre THEN "pre" ELSE ""
+Step(l, gg, m, fk) ==
+  [line |-> l, m |-> m, fk |-> FK(l, fk),
+   g |-> [gg EXCEPT !.ln = IF Track THEN @ + 1 ELSE @,
+                    !.faults = IF FK(l, fk) # "" THEN Append(@, [at |-> gg.ln + 1, kind |-> FK(l, fk)]) ELSE @]]
 
 \* ---- the identifier line
 GenIdent(gg, m) ==
@@ -336,7 +341,7 @@ GenIdent(gg, m) ==
                        !.acolon = x[4], !.af = x[6], !.pre = x[7]],
          Ign(GPre(GAf([gg EXCEPT !.ph = "ident", !.na = x[5], !.ref = x[2], !.nc = 0], x[6]), x[7]), x[6], Chunk(0, x[5]), "id"),
          [m EXCEPT !.name = x[1], !.anns = Chunk(0, x[5])],
-         x[6] # "none" \/ x[7] \/ (x[5] > 0 /\ ~x[3])) :
+         IF x[5] > 0 /\ ~x[3] THEN "nocolon" ELSE "") :
     x \in { y \in Forms \X Indents \X BOOLEAN \X BOOLEAN \X (0..MaxIdAnns) \X AFDom \X PreDom :
               /\ (y[1] \in NoAnnForms => y[5] = 0)
               /\ (y[5] > 0 /\ ~y[3] => MayPlant(gg, "nocolon") /\ y[6] = "none" /\ ~y[7])   \* missing ':' before the annotations
@@ -347,7 +352,7 @@ GenIdent(gg, m) ==
 \* ---- a line that is not an identifier where the identifier should be (fault "noident")
 GenNoIdent(gg, m) ==
   IF MayPlant(gg, "noident") /\ ~gg.noid
-  THEN { Step([Line0 EXCEPT !.t = "plain", !.n = 1], Planted([gg EXCEPT !.noid = TRUE]), m, TRUE) }
+  THEN { Step([Line0 EXCEPT !.t = "plain", !.n = 1], Planted([gg EXCEPT !.noid = TRUE]), m, "noident") }
   ELSE {}
 
 \* ---- continuation line of the identifier annotations
@@ -356,7 +361,7 @@ GenIdCont(gg, m) ==
   ELSE { Step([Line0 EXCEPT !.ind = x[1], !.anns = Chunk(gg.na, x[2]), !.acolon = x[3], !.af = x[4], !.pre = x[5]],
               Ign(GPre(GAf([gg EXCEPT !.na = @ + x[2], !.nc = @ + 1], x[4]), x[5]), x[4], Chunk(gg.na, x[2]), "id"),
               [m EXCEPT !.anns = @ \o Chunk(gg.na, x[2])],
-              x[4] # "none" \/ x[5]) :
+              "") :
          x \in { y \in Indents \X (1..(MaxIdAnns - gg.na)) \X BOOLEAN \X AFDom \X PreDom :
                    y[4] \in AFs(gg, y[2]) /\ y[5] \in Pres(GAf(gg, y[4])) } }
 
@@ -375,7 +380,8 @@ ParamLine(gg, m, nm, isdup, late) ==
         m1 == IF isret THEN [m EXCEPT !.tags = Append(@, [name |-> "returns", anns |-> Chunk(0, k), val |-> "", desc |-> d])]
               ELSE [m EXCEPT !.params = Append(@, [name |-> nm, anns |-> Chunk(0, k), desc |-> d])]
     IN Step(l, Ign(GPre(GAf(g2, x[5]), x[6]), x[5], Chunk(0, k), nm), m1,
-            isdup \/ late \/ x[5] # "none" \/ x[6] \/ (k > 0 /\ tk # "none" /\ ~x[3])) :
+            IF late THEN "paramlate" ELSE IF isdup THEN (IF isret THEN "returns2" ELSE "dupparam")
+            ELSE IF k > 0 /\ tk # "none" /\ ~x[3] THEN "nocolon" ELSE "") :
     x \in { y \in Indents \X (0..MaxParamAnns) \X BOOLEAN \X {"none", "plain"} \X AFDom \X PreDom :
               LET gd == IF isdup \/ late THEN Planted(gg) ELSE gg IN
               /\ (y[2] = 0 => ~y[3])
@@ -406,7 +412,7 @@ GenPartCont(gg, m) ==
              m1 == SetCurM(m, gg.ck, [cur EXCEPT !.anns = @ \o Chunk(gg.na, k),
                                                  !.desc = IF tk = "none" THEN @ ELSE <<[ind |-> 0, t |-> tk, n |-> 1]>>])
          IN Step(l, Ign(GPre(GAf(g2, x[5]), x[6]), x[5], Chunk(gg.na, k), cur.name), m1,
-                 x[5] # "none" \/ x[6] \/ (tk # "none" /\ ~x[3])) :
+                 IF tk # "none" /\ ~x[3] THEN "nocolon" ELSE "") :
          x \in { y \in Indents \X (1..(MaxA(gg) - gg.na)) \X BOOLEAN \X {"none", "plain"} \X AFDom \X PreDom :
                    /\ (y[4] # "none" /\ ~y[3] => MayPlant(gg, "nocolon") /\ y[5] = "none" /\ ~y[6])
                    /\ y[5] \in AFs(gg, y[2])
@@ -423,16 +429,16 @@ GenPartText(gg, m) ==
                   ELSE cur.desc \o Es(gg.pend) \o <<ln>>
          IN Step([Line0 EXCEPT !.ind = x[1], !.t = x[2], !.n = gg.txt + 1, !.pre = x[3]],
                  GPre([gg EXCEPT !.txt = @ + 1, !.pend = 0], x[3]),
-                 SetCurM(m, gg.ck, [cur EXCEPT !.desc = d]), x[3]) :
+                 SetCurM(m, gg.ck, [cur EXCEPT !.desc = d]), "") :
          x \in { y \in Indents \X {"plain", "paren", "taglike"} \X PreDom :
                    y[2] \in TextKinds(gg.txt = 0, y[1], gg.ref) /\ y[3] \in Pres(gg) } }
 
 \* ---- empty lines
-GenSep(gg, m) == { Step(EmptyLine, [gg EXCEPT !.ph = "desc", !.ck = "none", !.ref = 0, !.txt = 0, !.pend = 0, !.lead = 0, !.npara = 0, !.dn = 0], m, FALSE) }
-GenTagEmpty(gg, m) == IF gg.txt > 0 /\ gg.pend < MaxNoise THEN { Step(EmptyLine, [gg EXCEPT !.pend = @ + 1], m, FALSE) } ELSE {}
+GenSep(gg, m) == { Step(EmptyLine, [gg EXCEPT !.ph = "desc", !.ck = "none", !.ref = 0, !.txt = 0, !.pend = 0, !.lead = 0, !.npara = 0, !.dn = 0], m, "") }
+GenTagEmpty(gg, m) == IF gg.txt > 0 /\ gg.pend < MaxNoise THEN { Step(EmptyLine, [gg EXCEPT !.pend = @ + 1], m, "") } ELSE {}
 GenDescEmpty(gg, m) ==
-  IF m.desc = <<>> THEN (IF gg.lead < MaxNoise THEN { Step(EmptyLine, [gg EXCEPT !.lead = @ + 1], m, FALSE) } ELSE {})
-  ELSE IF gg.pend < MaxNoise THEN { Step(EmptyLine, [gg EXCEPT !.pend = @ + 1], m, FALSE) } ELSE {}
+  IF m.desc = <<>> THEN (IF gg.lead < MaxNoise THEN { Step(EmptyLine, [gg EXCEPT !.lead = @ + 1], m, "") } ELSE {})
+  ELSE IF gg.pend < MaxNoise THEN { Step(EmptyLine, [gg EXCEPT !.pend = @ + 1], m, "") } ELSE {}
 
 \* ---- a text line of the block description
 GenDescText(gg, m) ==
@@ -441,7 +447,7 @@ GenDescText(gg, m) ==
      ELSE { Step([Line0 EXCEPT !.ind = x[1], !.t = x[2], !.n = gg.dn + 1, !.pre = x[3]],
                  GPre([gg EXCEPT !.txt = IF newpara THEN 1 ELSE @ + 1, !.npara = IF newpara THEN @ + 1 ELSE @,
                                  !.dn = @ + 1, !.pend = 0], x[3]),
-                 [m EXCEPT !.desc = @ \o Es(gg.pend) \o <<[ind |-> x[1], t |-> x[2], n |-> gg.dn + 1]>>], x[3]) :
+                 [m EXCEPT !.desc = @ \o Es(gg.pend) \o <<[ind |-> x[1], t |-> x[2], n |-> gg.dn + 1]>>], "") :
             x \in { y \in (IF m.desc = <<>> THEN {0} ELSE Indents) \X {"plain", "paren", "taglike"} \X PreDom :
                       y[2] \in TextKinds(m.desc = <<>>, y[1], 0) /\ y[3] \in Pres(gg) } }
 
@@ -457,7 +463,8 @@ TagLine(gg, m, nm, isdup) ==
         g2 == IF isdup \/ (k > 0 /\ tk # "none" /\ ~x[3]) THEN Planted(g1) ELSE g1
     IN Step(l, Ign(GPre(GAf(g2, x[7]), x[8]), x[7], Chunk(0, k), nm),
             [m EXCEPT !.tags = Append(@, [name |-> nm, anns |-> Chunk(0, k), val |-> v, desc |-> d])],
-            isdup \/ x[7] # "none" \/ x[8] \/ (k > 0 /\ tk # "none" /\ ~x[3])) :
+            IF isdup THEN (IF nm = "returns" THEN "returns2" ELSE "duptag")
+            ELSE IF k > 0 /\ tk # "none" /\ ~x[3] THEN "nocolon" ELSE "") :
     x \in { y \in {i \in Indents : i <= gg.ref} \X (0..MaxTagAnns) \X BOOLEAN \X {"none", "plain"} \X {"", "v"} \X BOOLEAN
                   \X AFDom \X PreDom :
               LET gd == IF isdup THEN Planted(gg) ELSE gg IN
@@ -475,7 +482,7 @@ GenTag(gg, m) ==
   \cup (IF MayPlant(gg, "returns2") /\ gg.ret THEN TagLine(gg, m, "returns", TRUE) ELSE {})
 GenAttrs(gg, m) ==          \* fault "attrs": malformed deprecated "Attributes:" tag
   IF MayPlant(gg, "attrs")
-  THEN { Step([Line0 EXCEPT !.k = "tag", !.name = "attributes", !.ind = i, !.af = "attrs"], Planted(gg), m, TRUE) :
+  THEN { Step([Line0 EXCEPT !.k = "tag", !.name = "attributes", !.ind = i, !.af = "attrs"], Planted(gg), m, "attrs") :
          i \in {j \in Indents : j <= gg.ref} }
   ELSE {}
 
@@ -506,7 +513,7 @@ EmitX(x) ==
   /\ ps' = PL(ps, x.line)
   /\ g' = x.g /\ model' = x.m
   /\ lines' = IF KeepLines THEN Append(lines, x.line) ELSE lines
-  /\ expected' = IF x.fl THEN expected \cup {SrcLine(g, g.ln + 1)} ELSE expected
+  /\ expected' = IF x.fk # "" THEN expected \cup {SrcLine(g, g.ln + 1)} ELSE expected
   /\ UNCHANGED pc
 \* one action per branch of the loop body (used by SpecByClass: TLC reports coverage per line class)
 Emit(b) == pc = "gen" /\ \E x \in GenNext(g, model) : Branch(Pre(ps, x.line), x.line) = b /\ EmitX(x)
@@ -558,9 +565,9 @@ LostPosition == \E i \in 1..Len(ps.diags) : ps.diags[i].line = 0
 DiagAtFault == (Done /\ g.alone /\ g.nf <= 1 /\ ~(KnownDeviation("validate_position_lost_on_continuation") /\ LostPosition))
                => \A i \in 1..Len(ps.diags) : ps.diags[i].line \in expected
 \* C11: a malformed annotation is ignored rather than half-applied
-PartAnns(tr, part) == IF part = "id" THEN Range(tr.anns)
-                      ELSE UNION ({Range(tr.params[i].anns) : i \in {j \in 1..Len(tr.params) : tr.params[j].name = part}}
-                                  \cup {Range(tr.tags[i].anns) : i \in {j \in 1..Len(tr.tags) : tr.tags[j].name = part}})
+PartAnns(tr, part) == IF part = "id" THEN RangeOf(tr.anns)
+                      ELSE UNION ({RangeOf(tr.params[i].anns) : i \in {j \in 1..Len(tr.params) : tr.params[j].name = part}}
+                                  \cup {RangeOf(tr.tags[i].anns) : i \in {j \in 1..Len(tr.tags) : tr.tags[j].name = part}})
 IgnoredNotHalfApplied == Done => \A pa \in g.ign : pa[2] \notin PartAnns(Tree(ps), pa[1])
 \* a planted fault is diagnosed (vacuity guard of DiagAtFault; not part of the statement)
 FaultDiagnosed == (Done /\ g.nf = 1 /\ g.alone) => ps.diags # <<>>
